@@ -21,6 +21,7 @@ from glue.core import Data, DataCollection
 from glue.core.state import (GlueSerializer, GlueUnSerializer, PATH_PATCHES, VersionedDict, lookup_class_with_patches)
 from glue.utils import lookup_class
 
+from vf import lib_C02_histories as H
 from vf import lib_C02_sessions as L
 from vf.props import C02 as P02
 
@@ -63,6 +64,7 @@ PAIRS = [(dv, cv) for dv in (1, 2, 3, 4, 5) for cv in (1, 2, 3, 4)]
 
 def cases(tier, seed):
     yield ["registry"]
+    yield ["rename_resolver"]
     for i in range(N_TYPES[tier]):
         yield ["types", i]
     for r in range(N_ROUNDS[tier]):
@@ -70,6 +72,7 @@ def cases(tier, seed):
             yield ["pin", dv, cv, r]
         if r < N_NEWEST[tier]:
             yield ["newest", r]
+        yield ["mixed", r]
 
 
 # ---------------------------------------------------------------- version projection
@@ -93,12 +96,35 @@ def projection(dv, cv):
     return opts, skip
 
 
-def run_pinned(ctx, ses, dv, cv, skip):
+SAFE_HISTORIES = ["readd", "remove_group_middle", "undo_redo", "change_values", "change_labels_styles", "group_in_the_middle",
+                  "relink_stepwise", "set_links_atomic"]
+
+
+def mixed_case(ctx):
+    """Several protocol versions of ONE type in one file, loaded by one unserializer: every dataset of a session is
+    written with its own Data version (both orders: older first / newer first), the collection with a random version."""
+    for b in range(BLOCK):
+        n = ctx.rng.choice([2, 3])
+        dvs = [ctx.rng.randint(1, 5) for _ in range(n)]
+        if len(set(dvs)) == 1:
+            dvs[ctx.rng.randrange(n)] = 1 + dvs[0] % 5
+        cv = ctx.rng.randint(1, 4)
+        opts, skip = projection(min(dvs), cv)
+        opts["n_data"] = n
+        ses = L.build_session(ctx.rng, opts, None)
+        by_id = {id(h.data): v for h, v in zip(ses.ds, dvs)}
+        ctx.count("mixed:order:%s" % ("older_first" if dvs[0] < dvs[-1] else "newer_first" if dvs[0] > dvs[-1] else "other"))
+        run_pinned(ctx, ses, dvs, cv, skip, pins={Data: lambda obj: by_id.get(id(obj), 5), DataCollection: cv})
+
+
+def run_pinned(ctx, ses, dv, cv, skip, pins=None):
     desc, dc = ses.desc, ses.dc
-    pins = {}
-    if dv is not None:
-        pins = {Data: dv, DataCollection: cv}
-    tag = "newest" if dv is None else "data_v%d_dc_v%d" % (dv, cv)
+    mixed = isinstance(dv, list)
+    if pins is None:
+        pins = {}
+        if dv is not None:
+            pins = {Data: dv, DataCollection: cv}
+    tag = "newest" if dv is None else ("mixed" if mixed else "data_v%d_dc_v%d" % (dv, cv))
     ctx.count("sessions_generated")
     ctx.count("sessions_generated:" + tag)
     nontrivial = bool(desc["groups"] or desc["links"] or desc["joins"] or any(d["derived"] for d in desc["data"]))
@@ -117,7 +143,9 @@ def run_pinned(ctx, ses, dv, cv, skip):
     rec = json.loads(text)
     for name, r in rec.items():
         t = r.get("_type")
-        if t == "glue.core.data.Data":
+        if t == "glue.core.data.Data" and mixed:
+            ctx.count("mixed:data_record_protocol:%d" % r.get("_protocol", 1))
+        elif t == "glue.core.data.Data":
             want = dv if dv is not None else max(GlueSerializer.dispatch._data[Data])
             ctx.count("record_protocol_checked")
             if r.get("_protocol", 1) != want:
@@ -194,6 +222,8 @@ def run_pinned(ctx, ses, dv, cv, skip):
 def version_keys(dv, cv):
     if dv is None:
         return {"pinned": False}
+    if isinstance(dv, list):
+        return {"pinned": True, "mixed_data_versions": True, "data_version": min(dv), "dc_version": cv, "old_dc_loader": cv <= 3}
     return {"pinned": True, "data_version": dv, "dc_version": cv, "old_dc_loader": cv <= 3}
 
 
@@ -204,6 +234,12 @@ def run_case(ctx, case):
     if case[0] == "types":
         types_case(ctx)
         return
+    if case[0] == "rename_resolver":
+        rename_resolver_case(ctx)
+        return
+    if case[0] == "mixed":
+        mixed_case(ctx)
+        return
     if case[0] == "pin":
         _, dv, cv, r = case
         opts, skip = projection(dv, cv)
@@ -213,6 +249,11 @@ def run_case(ctx, case):
                 o["want_join"] = ctx.rng.choice(L.JOIN_SHAPES)      # make sure every pair sees key joins
             elif b == 2 and dv >= 3 and cv >= 4:
                 o["history"] = "remove_last"     # dataset removed before saving, still reachable through a key join
+            elif b == 3:
+                hist = ctx.rng.choice(SAFE_HISTORIES)
+                o.update(H.HISTORY_OPTS[hist])
+                # histories that move a dataset would put a flood fill on a later dataset (C02's known load failure)
+                o["exclude_leaves"] = ("floodfill",)
             elif b == 1:
                 # world coordinates + a function-link derived column inside every dataset + one external link:
                 # v1-v3 records mix coordinate, internal and external links in one list and the loader must split them
@@ -221,6 +262,17 @@ def run_case(ctx, case):
                 o["force_data"] = {"coords": ctx.rng.choice(["identity", "diagonal", "full", "coupled_symmetric"]),
                                    "derived": ["function"]}
             ses = L.build_session(ctx.rng, o, None)
+            if b == 3:
+                try:
+                    tag = H.apply_history(ctx.rng, ses, hist)
+                except Exception as exc:
+                    ctx.count("history_raised:%s:%s" % (hist, type(exc).__name__))
+                    continue
+                if tag is None:
+                    ctx.count("history_not_applicable:" + hist)
+                else:
+                    ses.desc["history"] = tag
+                    ctx.count("pinned_sessions_with_history:" + hist)
             run_pinned(ctx, ses, dv, cv, skip)
     elif case[0] == "newest":
         # C02 owns the newest format; here only "a save uses the newest version and that version loads"
@@ -261,6 +313,8 @@ def types_case(ctx):
                 ctx.count("type_family:no_recipe:" + key)
                 continue
             for recipe in recipes:
+                if v < getattr(recipe, "min_version", 1):
+                    continue
                 rname = recipe.__name__
                 graph, check = recipe(ctx.rng)
                 pins = {typ: v} if len(versions) > 1 else {}
@@ -396,6 +450,73 @@ def registry_case(ctx):
     rename_table_case(ctx)
 
 
+def rename_resolver_case(ctx):
+    """The REAL resolver on rename chains of length 2 and 3 whose hops are listed in either order (entries added to the
+    live PATH_PATCHES for the duration of this case and removed again), and on every real chain of the table."""
+    from vf import lib_C12_types as T
+    target = "vf.lib_C12_types.RenameTarget"
+    chains = {
+        "in_order": [("vfold.a.Thing", "vfmid.a.Thing"), ("vfmid.a.Thing", target)],
+        "reverse_order": [("vfmid.b.Thing", target), ("vfold.b.Thing", "vfmid.b.Thing")],
+        "three_in_order": [("vfold.c.Thing", "vfmid.c.Thing"), ("vfmid.c.Thing", "vfnew.c.Thing"), ("vfnew.c.Thing", target)],
+        "three_reverse": [("vfnew.d.Thing", target), ("vfmid.d.Thing", "vfnew.d.Thing"), ("vfold.d.Thing", "vfmid.d.Thing")],
+        "three_shuffled": [("vfmid.e.Thing", "vfnew.e.Thing"), ("vfold.e.Thing", "vfmid.e.Thing"), ("vfnew.e.Thing", target)],
+    }
+    added = []
+    try:
+        for name, hops in chains.items():
+            for k, v in hops:
+                PATH_PATCHES[k] = v
+                added.append(k)
+        for name, hops in chains.items():
+            starts = [k for k, v in hops]
+            for start in starts:
+                ctx.evaluation(["rename_resolver", name, starts.index(start)], True)
+                ctx.count("rename_resolver:chains_checked")
+                try:
+                    got = lookup_class_with_patches(start)
+                except Exception as exc:
+                    ctx.violation({"what": "rename_resolver_raises_on_chain", "listing": name, "exc": type(exc).__name__}, {"start": start})
+                    continue
+                if got is not T.RenameTarget:
+                    ctx.violation({"what": "rename_resolver_stops_early", "listing": name}, {"start": start, "got": repr(got)})
+        # a record of a renamed type loads through the chain as well
+        import json
+        for start in ("vfold.a.Thing", "vfold.b.Thing", "vfold.e.Thing"):
+            ctx.count("rename_resolver:records_loaded_through_chain")
+            text = json.dumps({"__main__": {"_type": start}})
+            try:
+                GlueUnSerializer.loads(text).object("__main__")
+                ctx.violation({"what": "rename_record_loaded_without_loader"}, {"start": start})
+            except Exception as exc:
+                # RenameTarget has no loader: the only acceptable failure is "don't know how to load ... RenameTarget"
+                if "RenameTarget" not in str(exc):
+                    ctx.violation({"what": "rename_record_not_resolved", "exc": type(exc).__name__}, {"start": start, "error": str(exc)[:200]})
+    finally:
+        for k in added:
+            PATH_PATCHES.pop(k, None)
+    # every real chain: the resolver must end where a visited-set walk ends
+    for key in sorted(PATH_PATCHES):
+        seen, cur = set(), key
+        while cur in PATH_PATCHES and cur not in seen:
+            seen.add(cur)
+            cur = PATH_PATCHES[cur]
+        if cur in PATH_PATCHES or len(seen) < 2:
+            continue
+        ctx.count("rename_resolver:real_chains_of_length>=2")
+        try:
+            want = lookup_class(cur)
+        except Exception as exc:
+            want = ("raises", type(exc).__name__)
+        try:
+            got = lookup_class_with_patches(key)
+        except Exception as exc:
+            got = ("raises", type(exc).__name__)
+        ctx.evaluation(["rename_real_chain", key], True)
+        if got is not want and got != want:
+            ctx.violation({"what": "rename_resolver_disagrees_on_chain", "name": key}, {"walk_ends_at": cur})
+
+
 def rename_table_case(ctx):
     import glue
     own = glue.__name__ + "."
@@ -493,6 +614,12 @@ def floors(counters, tier):
                 out.append("registered saver %s has no per-type recipe exercising it" % key)
     if counters.get("type_family:trips_compared", 0) < 30:
         out.append("fewer than 30 per-type round trips compared")
+    if counters.get("rename_resolver:chains_checked", 0) < 10:
+        out.append("the rename resolver was not exercised on chains listed in either order")
+    if counters.get("sessions_compared:mixed", 0) < 8:
+        out.append("fewer than 8 sessions with several Data versions in one file compared")
+    if counters.get("mixed:order:older_first", 0) < 1 or counters.get("mixed:order:newer_first", 0) < 1:
+        out.append("mixed-version files were not written in both orders")
     if counters.get("sessions_compared:newest", 0) < 8:
         out.append("fewer than 8 unpinned (newest-format) sessions compared")
     if counters.get("record_protocol_checked", 0) < 100:
